@@ -62,7 +62,19 @@ def _sock_script(draw, gen: int):
     tracked_at = draw(st.integers(0, n - 1))
     for i in range(n):
         if i == tracked_at:
-            pre = draw(st.sampled_from(["none", "fault1", "fault2", "fault3", "down", "down", "chain", "down_armed"]))
+            pre = draw(st.sampled_from(["none", "fault1", "fault2", "fault3", "down", "down", "chain", "down_armed", "late_retry"]))
+            if pre == "late_retry":
+                # accepted while the link is down; the write on the first connection (0.5 s later) fails; the next
+                # connection is established around the ORIGINAL deadline a + L (the lifetime does not restart on a retry)
+                L = draw(st.sampled_from([2.0, 30.0]))
+                delta = draw(st.sampled_from([-0.125, 0.0, 0.125, 1.0]))
+                ops.append(["down", 0, 0.5])
+                ops.append(["arm", [draw(st.sampled_from([1, 2, 3]))]])
+                ops.append(["send", "T", draw(st.integers(1, 3)), L])
+                ops.append(["script", [["accept", L - 0.5 + delta]]])
+                ops.append(["advance", 0.5])
+                ops.append(["advance", L + 1.0])
+                continue
             if pre.startswith("fault"):
                 ops.append(["fault", int(pre[-1])])
             elif pre == "down":
@@ -159,6 +171,9 @@ def run_sock(case, stats: Stats | None):
                 loop.settle()
             elif name == "arm":
                 net.arm_on_accept.extend(op[1])
+            elif name == "script":
+                for k_, lat_ in op[1]:
+                    net.script.append((k_, lat_))
             elif name == "advance":
                 loop.advance(op[1])
             elif name == "advance_rel":
@@ -224,6 +239,8 @@ def run_sock(case, stats: Stats | None):
                     classes.append("resent-first")
             dl = tracked["a"] + tracked["L"]
             opens = [e[0] for e in net.log if e[1] == "open" and e[0] > tracked["a"]]
+            if hit and any(o > hit[0][0] and dl - 0.25 <= o <= dl + 1.0 for o in opens):
+                classes.append("reconnect-near-deadline-after-fault")
             for o in opens:
                 if o == dl:
                     classes.append("open-at-deadline")
@@ -518,7 +535,7 @@ def shards(tier: str):
 def floors(tier: str):
     return {"fault-hit-tracked": 100, "accepted-while-down": 100, "resent-first": 30, "open-at-deadline": 5,
             "open-just-before-deadline": 5, "open-just-after-deadline": 5, "toggle-on-wire": 50, "retried": 30,
-            "error-request-on-wire": 30}
+            "error-request-on-wire": 30, "reconnect-near-deadline-after-fault": 40}
 
 
 def run_shard(spec, seed: int, tier: str):
